@@ -3,7 +3,7 @@
 use super::*;
 
 impl Subscribers {
-    /// ids of all subscribers in the tree with the pattern (= path) they are stored under
+    /// ids of all live subscribers in the tree with the pattern (= path) they are stored under
     pub(crate) fn verif_subscribers(&self) -> Vec<(SubscriptionId, Vec<KeySegment>, Vec<KeySegment>)> {
         fn walk(
             node: &Node,
@@ -11,7 +11,14 @@ impl Subscribers {
             out: &mut Vec<(SubscriptionId, Vec<KeySegment>, Vec<KeySegment>)>,
         ) {
             for s in &node.subscribers {
-                out.push((s.id.clone(), path.clone(), s.pattern.clone()));
+                // a subscriber whose receiver is gone is removed lazily on the next matching event
+                let closed = match &s.tx {
+                    EventSender::State(tx) => tx.is_closed(),
+                    EventSender::PState(tx) => tx.is_closed(),
+                };
+                if !closed {
+                    out.push((s.id.clone(), path.clone(), s.pattern.clone()));
+                }
             }
             for (segment, child) in &node.tree {
                 path.push(segment.clone());
